@@ -1,0 +1,76 @@
+//go:build verif
+
+// Contracts for package utils (C10: the priority queue under the validator election; C18 index safety).
+// Comment-only file, read by /verif/govc.
+
+package utils
+
+// ---------------------------------------------------------------- Queued accessors
+// (under contract so that callers do not inline the value-receiver copy)
+
+//@ func NewQueued
+//@   modifies nothing
+//@   ensures result != nil && fresh(result) && result.value == value && result.priority == priority && result.index == index   // C10.pq-item
+
+//@ func (Queued).Value
+//@   modifies nothing
+//@   ensures result == q.value                                                                   // C10.pq-item
+
+//@ func (Queued).Priority
+//@   modifies nothing
+//@   ensures result == q.priority                                                                // C10.pq-item
+
+//@ func (Queued).Index
+//@   modifies nothing
+//@   ensures result == q.index                                                                   // C10.pq-item
+
+// ---------------------------------------------------------------- PriorityQueue (heap.Interface over []*Queued)
+//
+// wfPQ(q): representation invariant container/heap relies on and the five methods maintain:
+// every slot holds a non-nil item whose index field is its slot, hence the items are pairwise distinct.
+//@ ghost func wfPQ(q PriorityQueue) bool = forall k int :: 0 <= k && k < len(q) ==> q[k] != nil && q[k].index == k
+
+//@ func (PriorityQueue).Len
+//@   safety C18
+//@   modifies nothing
+//@   ensures result == len(vq) && result >= 0                                                    // C10.pq-len
+
+// Less is the strict priority order, highest first (so heap.Pop yields a maximal priority)
+//@ func (PriorityQueue).Less
+//@   safety C18
+//@   requires 0 <= i && i < len(vq) && 0 <= j && j < len(vq) && vq[i] != nil && vq[j] != nil     // C18.pq-index
+//@   modifies nothing
+//@   ensures result == (vq[i].priority > vq[j].priority)                                         // C10.pq-less
+
+// Swap exchanges the two slots and keeps the index fields equal to the slots
+//@ func (PriorityQueue).Swap
+//@   safety C18
+//@   requires 0 <= i && i < len(vq) && 0 <= j && j < len(vq) && vq[i] != nil && vq[j] != nil     // C18.pq-index
+//@   modifies elems(vq), vq[i].index, vq[j].index
+//@   ensures vq[i] == old(vq[j]) && vq[j] == old(vq[i])                                          // C10.pq-swap
+//@   ensures forall k int :: k != i && k != j ==> vq[k] == old(vq[k])                            // C10.pq-swap
+//@   ensures (i == j || old(vq[i]) != old(vq[j])) ==> vq[i].index == i && vq[j].index == j       // C10.pq-swap
+//@   ensures old(wfPQ(vq)) ==> wfPQ(vq)                                                          // C10.pq-wf
+//@   ensures vq[i].priority == old(vq[j].priority) && vq[j].priority == old(vq[i].priority)      // C10.pq-swap
+
+// Push appends the item in the last slot and records that slot in the item
+//@ func (*PriorityQueue).Push
+//@   safety C18
+//@   requires vq != nil && dyntype(x, "*Queued") && unbox(x, "*Queued") != nil                   // C18.pq-push
+//@   modifies *vq, unbox(x, "*Queued").index
+//@   ensures len(*vq) == old(len(*vq)) + 1 && (*vq)[old(len(*vq))] == unbox(x, "*Queued")        // C10.pq-push
+//@   ensures forall k int :: 0 <= k && k < old(len(*vq)) ==> (*vq)[k] == old((*vq)[k])           // C10.pq-push
+//@   ensures unbox(x, "*Queued").index == old(len(*vq))                                          // C10.pq-push
+//@   ensures old(wfPQ(*vq)) && (forall k int :: 0 <= k && k < old(len(*vq)) ==> old((*vq)[k]) != unbox(x, "*Queued")) ==> wfPQ(*vq)   // C10.pq-wf
+
+// Pop removes and returns the last slot (container/heap has moved the maximum there)
+//@ func (*PriorityQueue).Pop
+//@   safety C18
+//@   requires vq != nil && len(*vq) > 0 && (*vq)[len(*vq) - 1] != nil                            // C18.pq-pop
+//@   modifies *vq, elems(*vq), (*vq)[len(*vq) - 1].index
+//@   ensures len(*vq) == old(len(*vq)) - 1                                                       // C10.pq-pop
+//@   ensures dyntype(result, "*Queued") && unbox(result, "*Queued") == old((*vq)[len(*vq) - 1])  // C10.pq-pop
+//@   ensures forall k int :: 0 <= k && k < len(*vq) ==> (*vq)[k] == old((*vq)[k])                // C10.pq-pop
+//@   ensures unbox(result, "*Queued").index == 0 - 1                                             // C10.pq-pop
+//@   ensures old(wfPQ(*vq)) ==> wfPQ(*vq)                                                        // C10.pq-wf
+//@   ensures unbox(result, "*Queued").priority == old((*vq)[len(*vq) - 1].priority) && unbox(result, "*Queued").value == old((*vq)[len(*vq) - 1].value)   // C10.pq-pop
